@@ -10,7 +10,7 @@ CLAIMED = {
  "C16": ("Coq theorems over the Gallina model of the generator, for every definition and version: the fields of the emitted top-level class are exactly the definition's fields valid at the version, in order, snake-cased, tagged iff the version is in taggedVersions; all classes carry version/flexibility/key/header rule; one class per structure (no self-nesting); c16_supported_definitions_are_well_formed / c16_supported_definitions_encode_to_spec: for every definition and version satisfying the boolean defn_ok, the plans read off the generated module are well formed, so its classes encode to the wire specification and decode back (defn_ok is evaluated on every generated module and agreed with def_wf on all of them); correspondence on seeded random definitions: real generator output = model, independent reading of the definition (incl. a systematic definition with builtin-colliding names on every kind of field), generated index, and bytes kio encodes for instances of generated classes = model encoder over plans read off the definition (with wf_env checked per module). Partial: pydantic's JSON layer and the supported-subset conditions (keywords, zero-size array items, optional tagged structs) are inside the correspondence, not the theorems",
          "machine-checked proof (Coq) over the generator model + translation-validation correspondence on random definitions", "4 C16"),
 
- "C12": ("Coq theorems (Types/PhantomProofs.v): constructor call = identity on members / TypeError otherwise; integer types nest by range for ALL integers; membership of a fixed-width type <-> the writer succeeds, and then the reader returns the value; f64, both duration types (read back as the value rounded half-even to whole ms) and the timestamp type are accepted by their writers and read back; instance theorem: translated interval bounds = documented bounds and subclass chains nest; correspondence on isinstance / constructor / writer / read-back over boundary values of every Python type",
+ "C12": ("Coq theorems (Types/PhantomProofs.v): constructor call = identity on members / TypeError otherwise; integer types nest by range for ALL integers; membership of a fixed-width type <-> the writer succeeds, and then the reader returns the value; f64, both duration types (read back as the value rounded half-even to whole ms) and the timestamp type are accepted by their writers and read back; instance theorem: translated interval bounds = documented bounds and subclass chains nest; correspondence on isinstance / constructor / writer / read-back over boundary values of every Python type (incl. int subclasses, zone-shifted extremes, integers beyond 4300 digits); two recorded known findings (timestamp members beyond datetime.max in UTC; ValueError instead of TypeError for integers beyond CPython's int-to-text limit)",
          "machine-checked proof (Coq) + instance theorem + correspondence", "4 C12"),
  "C13": ("instance theorem c13_shipped by vm_compute over all 1629 classes / 5094 fields: annotation <-> kafka type table, nullability only on nullable-capable types, tuple[T, ...] arrays, defaults inhabit the declared type (entity defaults by class identity and field-wise), unique in-range tags on flexible classes only, reader+writer plans derivable by the Gallina rendering of kio's introspection AND well-formed (wf_env, the hypothesis of the codec theorems); that rendering is compared with kio's functions on every field plus 300 synthetic annotation/metadata combinations; every class's description is snapshotted before and after deriving its reader and writer",
          "Coq instance theorem by vm_compute over translator output + correspondence of the introspection model", "4 C13"),
